@@ -13,7 +13,8 @@
      5  a line is not a state from which the final state is reachable
      6  a live answer does not carry the forced status `running`
      7  the live answers are not a chain of scheduler states
-     8  a live answer is not a state from which the final state is reachable *)
+     8  a live answer is not a state from which the final state is reachable
+     9  a line follows the main thread's final status (since 7f2c2d0 nothing is appended after it) *)
 From Coq Require Import List Arith Bool PeanoNat.
 Import ListNotations.
 From BD.Status Require Import Model.
@@ -113,7 +114,11 @@ Definition case_errors (c : ccase) : list nat :=
             | Some f => if forallb (fun l => tbl_reachb (tbl_of (snd l)) f) lives then [] else [8]
             | None => []
             end in
-  e1 ++ e2 ++ e3 ++ e4 ++ e5 ++ e6 ++ e7 ++ e8.
+  let e9 := match mains with
+            | [_; _] => match rev ws with (0, _) :: _ => [] | _ => [9] end
+            | _ => []
+            end in
+  e1 ++ e2 ++ e3 ++ e4 ++ e5 ++ e6 ++ e7 ++ e8 ++ e9.
 
 Fixpoint mism_from (k : nat) (cs : list ccase) : list (nat * nat) :=
   match cs with
@@ -142,6 +147,12 @@ Proof. vm_compute. reflexivity. Qed.
 (* since b9e9fa2 `finished` between two steps is not Scheduler.Status any more (before: accepted - finding F8a) *)
 Example reject_finished_between_steps :
   case_errors (2, [(0, (0, (0, 0), [(0,0);(0,0)], [])); (1, (4, (0, 0), [(4,0);(0,0)], []))], []) = [1].
+Proof. vm_compute. reflexivity. Qed.
+
+(* since 7f2c2d0 a line after the final status is not a model behaviour (before: accepted - findings F8b/F8c) *)
+Example reject_line_after_final :
+  case_errors (1, [(0, (0, (0, 0), [(0,0)], [])); (1, (4, (0, 0), [(4,0)], [])); (0, (4, (0, 0), [(4,0)], []));
+                   (2, (1, (0, 0), [(1,0)], []))], []) = [9].
 Proof. vm_compute. reflexivity. Qed.
 
 (* other deviations: an overall status that is not Scheduler.Status of any earlier table; a snapshot going backwards *)
